@@ -99,6 +99,29 @@ type NamedKinds struct {
 	K  Key       `json:"k,omitempty"`
 }
 
+// Structs without any JSON-visible field.
+type Empty struct{}
+type OnlyOmitted struct {
+	A int `json:"-"`
+	b int //nolint
+}
+type HoldsEmpty struct {
+	E  Empty               `json:"e"`
+	PE *Empty              `json:"pe"`
+	SE []struct{}          `json:"se"`
+	ME map[string]struct{} `json:"me"`
+	O  OnlyOmitted         `json:"o"`
+	N  int                 `json:"n" jsonschema:"a described number"`
+}
+
+// Described carries jsonschema description tags.
+type Described struct {
+	Name  string   `json:"name" jsonschema:"the name"`
+	Tags  []string `json:"tags,omitempty" jsonschema:"free-form tags, with = sign later"`
+	Inner Inner    `json:"inner" jsonschema:"nested"`
+	P     *int     `jsonschema:"no json tag"`
+}
+
 // --- embedding ---
 
 type EmbBase struct {
@@ -242,6 +265,13 @@ type BadMapKey struct {
 	M map[int]string `json:"m"`
 	K int            `json:"k"`
 }
+type BadTagged struct {
+	F  func()         `json:"f" jsonschema:"a callback"`
+	C  chan int       `jsonschema:"a channel"`
+	M  map[int]string `json:"m,omitempty" jsonschema:"bad key"`
+	SF []func()       `json:"sf" jsonschema:"callbacks"`
+	N  int            `json:"n" jsonschema:"a number"`
+}
 type BadDeep struct {
 	L []map[string]*struct {
 		C chan bool `json:"c"`
@@ -255,6 +285,7 @@ var PlainData = []reflect.Type{
 	reflect.TypeFor[Scalars](), reflect.TypeFor[Tags](), reflect.TypeFor[Inner](), reflect.TypeFor[Pointers](), reflect.TypeFor[Containers](),
 	reflect.TypeFor[NamedKinds](), reflect.TypeFor[EmbByValue](), reflect.TypeFor[EmbByPointer](), reflect.TypeFor[EmbNested](), reflect.TypeFor[EmbUnexportedType](),
 	reflect.TypeFor[EmbTwo](), reflect.TypeFor[EmbShadowSame](), reflect.TypeFor[EmbDeep](),
+	reflect.TypeFor[Empty](), reflect.TypeFor[OnlyOmitted](), reflect.TypeFor[HoldsEmpty](), reflect.TypeFor[Described](), reflect.TypeFor[struct{}](), reflect.TypeFor[map[string]struct{}](), reflect.TypeFor[[]Empty](),
 	reflect.TypeFor[[]Scalars](), reflect.TypeFor[map[string]*Containers](), reflect.TypeFor[*Pointers](), reflect.TypeFor[[2]Tags](), reflect.TypeFor[NamedMap](), reflect.TypeFor[NamedInts](),
 	reflect.TypeFor[int8](), reflect.TypeFor[uint64](), reflect.TypeFor[float32](), reflect.TypeFor[string](), reflect.TypeFor[bool](), reflect.TypeFor[any](), reflect.TypeFor[*int](), reflect.TypeFor[[]any](),
 	reflect.TypeFor[map[string]any](), reflect.TypeFor[[][]*int16](), reflect.TypeFor[Key](), reflect.TypeFor[NamedInt](),
@@ -275,7 +306,7 @@ var WithStd = []reflect.Type{reflect.TypeFor[StdTypes](), reflect.TypeFor[Repeat
 var Recursive = []reflect.Type{reflect.TypeFor[Rec](), reflect.TypeFor[RecSlice](), reflect.TypeFor[RecMap](), reflect.TypeFor[MutA](), reflect.TypeFor[MutB](), reflect.TypeFor[RecDeep](), reflect.TypeFor[[]*Rec](), reflect.TypeFor[map[string]MutA]()}
 
 // Unsupported types must make For return an error, or be pruned with IgnoreInvalidTypes.
-var Unsupported = []reflect.Type{reflect.TypeFor[BadChan](), reflect.TypeFor[BadFunc](), reflect.TypeFor[BadComplex](), reflect.TypeFor[BadMapKey](), reflect.TypeFor[BadDeep](), reflect.TypeFor[chan int](), reflect.TypeFor[func()](),
+var Unsupported = []reflect.Type{reflect.TypeFor[BadChan](), reflect.TypeFor[BadFunc](), reflect.TypeFor[BadComplex](), reflect.TypeFor[BadMapKey](), reflect.TypeFor[BadDeep](), reflect.TypeFor[BadTagged](), reflect.TypeFor[[]BadTagged](), reflect.TypeFor[chan int](), reflect.TypeFor[func()](),
 	reflect.TypeFor[complex64](), reflect.TypeFor[map[int]int](), reflect.TypeFor[[]chan int](), reflect.TypeFor[map[string]func()](), reflect.TypeFor[*BadChan]()}
 
 // Embeddable are struct types safe to embed into reflect-built structs (distinct JSON names).
